@@ -694,6 +694,27 @@ func registerRegexp(m map[string]Intrinsic) {
 		rn := ci.Args[0].(*Native).V.(*rxNative)
 		return val(e.ConcStr(rn.pattern))
 	}
+	m["(*regexp.Regexp).NumSubexp"] = func(e *Exec, st *State, ci *CallInfo) Outcome {
+		rn := ci.Args[0].(*Native).V.(*rxNative)
+		return val(e.i64(rn.re.NumSubexp()))
+	}
+	m["(*regexp.Regexp).SubexpNames"] = func(e *Exec, st *State, ci *CallInfo) Outcome {
+		rn := ci.Args[0].(*Native).V.(*rxNative)
+		var out []*Str
+		for _, n := range rn.re.SubexpNames() {
+			out = append(out, e.ConcStr(n))
+		}
+		return val(e.mkStringSlice(st, out))
+	}
+	m["(*regexp.Regexp).LiteralPrefix"] = func(e *Exec, st *State, ci *CallInfo) Outcome {
+		rn := ci.Args[0].(*Native).V.(*rxNative)
+		pfx, complete := rn.re.LiteralPrefix()
+		b := e.C.False
+		if complete {
+			b = e.C.True
+		}
+		return val(tuple(e.ConcStr(pfx), b))
+	}
 	m["(*regexp.Regexp).FindStringSubmatch"] = func(e *Exec, st *State, ci *CallInfo) Outcome {
 		rn := ci.Args[0].(*Native).V.(*rxNative)
 		s := sArg(ci, 1)
